@@ -67,7 +67,7 @@ def gen_batch(rng, cap):
     n = rng.choice([0, 1, 1, 2, 3, 4, min(cap, 6)])
     if rng.random() < 0.07:
         n = cap + 1
-    shape = rng.choice(["none", "inside", "before", "after", "mixed", "single", "dup", "far"])
+    shape = rng.choice(["none", "inside", "before", "after", "mixed", "single", "dup", "far", "edge", "edge", "edge"])
     rem = []
     lo, hi = start, start + n
     def clampi(x):
@@ -86,6 +86,10 @@ def gen_batch(rng, cap):
     elif shape == "dup":
         x = rng.randrange(cap)
         rem = [x, x] + ([rng.randrange(cap)] if rng.random() < 0.5 else [])
+    elif shape == "edge":
+        # the positions where an off-by-one in the range arithmetic would show
+        edges = [x for x in (lo - 1, lo, lo + 1, hi - 1, hi, hi + 1, 0, cap - 1) if x >= 0]
+        rem = rng.sample(edges, rng.randint(1, min(3, len(edges))))
     elif shape == "far":
         rem = [rng.choice([cap, cap + 3, 255])]
     rem = [min(r, 255) for r in rem]   # the RLN API carries removal indices as single bytes
@@ -94,9 +98,13 @@ def gen_batch(rng, cap):
     return f"batch {hx(start)} {vlist(vs)} {rl}"
 
 
-def gen_seq(rng, backend, depth, nops, kinds, observe="obs", extra_obs=None):
+def gen_seq(rng, backend, depth, nops, kinds, observe="obs", extra_obs=None, prefill=0.0):
     cap = 1 << depth
     seq = [f"tree new {backend} {depth}"]
+    if rng.random() < prefill:
+        # start from a (nearly) full tree of non-default leaves so that resets are observable
+        k = rng.choice([cap, cap, cap - 1, max(cap // 2, 1)])
+        seq.append(f"range 0x0 {vlist([rng.randint(1, 1 << 30) for _ in range(k)])}")
     for _ in range(nops):
         if rng.random() < 0.02:
             seq.append(f"tree new {backend} {depth}")   # reset
